@@ -81,6 +81,7 @@ class Epoch:
         self.closed = None              # log index of the API waitUnregister record
         self.expected = []              # [(log index of REAP, raw status)] reaped for its child while it was in the set
         self.cbs = []                   # raw statuses handed to the handler
+        self.spawn_ret = -1             # log index of the RET of its register_spawn
 
 
 def oracle(log, rc=0, stderr=""):
@@ -191,6 +192,8 @@ def oracle(log, rc=0, stderr=""):
                 open_ep.pop(w, None)        # fork failed: the interest is not registered
             elif kind == "spawn" and ep is not None and ep.pid is None:
                 return ("wait:spawn-no-child", f"line {n+1}: register_spawn of {w} returned without fork")
+            elif kind == "spawn" and ep is not None:
+                ep.spawn_ret = n
         elif r == "KILL":
             if k in api and api[k][0] == "kill":
                 ep = api[k][2]
@@ -242,6 +245,17 @@ def oracle(log, rc=0, stderr=""):
             if end == "quiescent" and (int(d["zombies"]) or int(d["unreaped_statuses"])) and first_unreaped is not None and \
                any(x > first_unreaped and any(ep.active and ep.start < x for ep in open_ep.values()) for x in sigchld_delivered):
                 return ("wait:unreaped-at-quiescence", f"line {n+1}: every thread is idle, interests are registered, yet {d['zombies']} zombie(s) / {d['unreaped_statuses']} status(es) were never reaped although SIGCHLD was delivered while an interest that is still registered was already there")
+            # a child the library forked itself for an interest (register_spawn): from before the fork to the end the interest exists, so
+            # SIGCHLD must be caught from before the child can possibly end; every status change of that child is reaped before the run idles
+            if end == "quiescent":
+                for ep in open_ep.values():
+                    if ep.spawned and ep.active and ep.inc is not None and nreaped[ep.inc] < len(changes[ep.inc]):
+                        ln, raw = changes[ep.inc][nreaped[ep.inc]]
+                        if ln > getattr(ep, "spawn_ret", -1):
+                            continue        # only a change that happened while register_spawn was still in progress (later ones: see above)
+                        return ("wait:spawned-child-never-reaped", f"line {ln+1}: the child spawned for {ep.w} (pid {ep.pid}) reported {status_kind(raw)} "
+                                f"(0x{raw:x}) but that status was never reaped although {ep.w} stayed registered until every thread was idle "
+                                "(no SIGCHLD handler was in place when the child ended)")
         elif r == "FIN":
             fin = True
     if rc != 0 or not fin:
